@@ -456,8 +456,12 @@ def _cast_into(e, sd):
             return e
         if isinstance(e, (BVS, SB)):
             return S.as_sc(e)
+        if isinstance(e, (int, float, np.integer, np.floating, Fraction, bool, np.bool_)):
+            return S.as_sc(e)
         return e
     if isinstance(e, (BVS, SB)):
+        return S.as_sc(e)
+    if isinstance(e, (int, float, complex, np.number, Fraction, bool, np.bool_)):
         return S.as_sc(e)
     return e
 
